@@ -198,12 +198,14 @@ def case_alpha(case, res):
         iface = gs.DictInterface(T.logp_jax)
         base_state = {k: jnp.zeros(shapes[k], jnp.float32) for k in shapes}
     step = float(case["step"])
+    # the step size in force (kernel state) differs from the one the kernel was constructed with, as after adaptation
+    step_init = step * 1.7 if case["idx"] % 2 else step
     G = None
     mh_mode = None
     if kind == "rw":
-        ker = gs.RWKernel(listing, initial_step_size=step)
+        ker = gs.RWKernel(listing, initial_step_size=step_init)
     elif kind == "iwls":
-        ker = gs.IWLSKernel(listing, initial_step_size=step)
+        ker = gs.IWLSKernel(listing, initial_step_size=step_init)
     elif kind == "iwls_user":
         # user-supplied information: a fixed SPD matrix plus a state-dependent diagonal
         A = rng.normal(size=(T.d, T.d))
@@ -216,7 +218,7 @@ def case_alpha(case, res):
             th = T.flat_jax(iface.extract_position(T.keys, state) if use_liesel else state)
             return jnp.linalg.cholesky(jnp.asarray(G0, jnp.float32) + jnp.diag(0.5 * jnp.tanh(th) ** 2))
         G = Gfun
-        ker = gs.IWLSKernel(listing, chol_info_fn=chol_info_fn, initial_step_size=step)
+        ker = gs.IWLSKernel(listing, chol_info_fn=chol_info_fn, initial_step_size=step_init)
     else:
         mh_mode = case["mh_mode"]
         key0 = T.keys[0]
@@ -263,7 +265,7 @@ def case_alpha(case, res):
                     corr = corr + jnp.sum(-0.5 * ((x - 0.3) / 1.5) ** 2 + 0.5 * ((xp - 0.3) / 1.5) ** 2)
                     new[k] = xp
                 return gs.MHProposal(new, corr)
-        ker = gs.MHKernel(listing, prop, initial_step_size=step)
+        ker = gs.MHKernel(listing, prop, initial_step_size=step_init)
         _ = key0
     ker.set_model(iface)
     epoch = EpochConfig(EpochType.BURNIN, 10, 1, None).to_state(1, 1)
@@ -277,6 +279,7 @@ def case_alpha(case, res):
         state = iface.update_state({k: jnp.asarray(v) for k, v in pos0.items()}, base_state)
         th0 = T.flat_np(pos0)        # float32-rounded current point
         ks0 = ker.init_state(jax.random.PRNGKey(0), state)
+        ks0.step_size = jnp.asarray(step, jnp.float32)
         keys = jax.random.split(jax.random.PRNGKey(int(rng.integers(2 ** 31 - 1))), nk)
         out = jax.jit(jax.vmap(lambda k: ker.transition(k, ks0, state, epoch)))(keys)
         info = out.info
